@@ -6,7 +6,7 @@ func init() {
 	stdProp(&PropSpec{
 		ID: "C13", Level: "exploration",
 		Verdict: []string{"iter.", "order", "deep.order", "deep.iter", "panic"},
-		Rule: "container states taken at random points of mixed histories (multi-level trees after fills/drains, collision groups from adversarial digesters, nested and large values): every iterator flavour (read-only, mutable, keys, values, iterator objects, ranges with boundary-biased and invalid bounds, loaded-values), mutable iteration with overwrite of the current element and mutation of nested children (which may split the slab under the cursor), read-only element mutation (must be refused), loaded-value iteration after commit+eviction with a PRNG-chosen subset of slabs re-loaded, and reverse-order bulk pop; sequences compared with the model order (arrays: index order; maps: ascending digest sequence computed independently, insertion order among full collisions). Non-trivial = iterations over a container of >= 3 slabs incl. a range, a mutable-with-mutation and a partially loaded one; distinct by trace hash",
+		Rule: "container states taken at random points of mixed histories (multi-level trees after fills/drains, collision groups from adversarial digesters, nested and large values): every iterator flavour (read-only, mutable, keys, values, every iterator-object constructor drained with Next / NextKey / NextValue or a rotation of the three, ranges with boundary-biased and invalid bounds, loaded-values; containers of the temporary owner, copies and batch-built containers included), mutable iteration with overwrite of the current element and mutation of nested children (which may split the slab under the cursor), read-only element mutation (must be refused), loaded-value iteration after commit+eviction with a PRNG-chosen subset of slabs re-loaded, and reverse-order bulk pop; sequences compared with the model order (arrays: index order; maps: ascending digest sequence computed independently, insertion order among full collisions). Non-trivial = iterations over a container of >= 3 slabs incl. a range, a mutable-with-mutation and a partially loaded one; distinct by trace hash",
 		ExpectedReach: []string{"iter.ro", "iter.mut", "iter.range", "iter.rorange", "iter.badrange", "iter.keys", "iter.values", "iter.loaded-partial", "iter.loaded-all", "iter.child-mutated", "iter.current-overwritten", "iter.readonly-mutation-attempt", "iter.range-boundary", "reach.inline-group", "reach.last-level-list"},
 	}, stdHooks{
 		config: func(r *Rng, tier string) Config {
